@@ -48,7 +48,7 @@ def _run_one(path, name, lineno, timeout, extra=()):
     cmd = [PY, "-m", "crosshair", "check", "--report_all", "--per_condition_timeout", str(timeout),
            "--per_path_timeout", str(max(10, timeout // 3)), *extra, f"{path}:{lineno + 1}"]
     try:
-        p = subprocess.run(cmd, capture_output=True, text=True, timeout=timeout * 1.5 + 60, env=_env(),
+        p = subprocess.run(cmd, capture_output=True, text=True, timeout=timeout * 1.5 + 60, env=_env(), stdin=subprocess.DEVNULL,
                            cwd=env.VERIF)
         out = p.stdout + p.stderr
     except subprocess.TimeoutExpired as e:
@@ -86,7 +86,7 @@ def replay_call(path, line):
         "print('RESULT', r)\n"
         "sys.exit(0 if r else 7)\n"
     )
-    p = subprocess.run([PY, "-c", code], capture_output=True, text=True, env=_env(), cwd=env.VERIF, timeout=300)
+    p = subprocess.run([PY, "-c", code], capture_output=True, text=True, env=_env(), cwd=env.VERIF, timeout=300, stdin=subprocess.DEVNULL)
     if p.returncode == 7:
         return True, f"{fn}({args}) returned falsy"
     if p.returncode != 0:
